@@ -4,8 +4,7 @@
    [3 toks; calls; oracle]           Build of a composite expression; toks as in C16 (atom n = calls[n]);
                                      calls[n] = VL [VB name; args] (a call) or VL [VB name] (a bare identifier)
    output: VZ 0 = a condition was returned, VZ 1 = an error was returned ([-2] panic / [-3] hang otherwise) *)
-From Coq Require Import List ZArith Bool String.
-Local Open Scope string_scope.
+From Coq Require Import List ZArith Bool.
 From Bfe Require Import lib.Val lib.Bytes gen.CondProtos model.CondParse model.CondPrim run.RunC16.
 Import ListNotations.
 Open Scope Z_scope.
@@ -57,7 +56,7 @@ Definition decode_C17 (i : val) : option op17 :=
           all_some (map dec_call calls), dec_ext orc with
     | Some ts, Some cs, Some x =>
       (* every atom must name an entry of calls *)
-      if forallb (fun k => match k with TAtom n => Nat.ltb n (List.length cs) | _ => true end) ts
+      if forallb (fun k => match k with TAtom n => Nat.ltb n (length cs) | _ => true end) ts
       then Some (OComp x ts cs) else None
     | _, _, _ => None
     end
@@ -85,13 +84,13 @@ Inductive vclass := VNone | VIpList | VIpRange | VRegex | VHash | VTime | VPerio
 (* which validation a documented primitive applies to its pattern arguments (by documented name) *)
 Definition ends_with (suffix : bytes) (s : bytes) : bool := is_suffix suffix s.
 Definition vclass_of (name : bytes) : vclass :=
-  if bytes_eqb name (bs "req_vip_in") then VIpList
-  else if bytes_eqb name (bs "req_host_in") then VHostList
-  else if bytes_eqb name (bs "bfe_time_range") then VTime
-  else if bytes_eqb name (bs "bfe_periodic_time_range") then VPeriodic
-  else if ends_with (bs "ip_range") name then VIpRange
-  else if ends_with (bs "_regmatch") name then VRegex
-  else if ends_with (bs "_hash_in") name then VHash
+  if bytes_eqb name ((* "req_vip_in" *) [114;101;113;95;118;105;112;95;105;110]) then VIpList
+  else if bytes_eqb name ((* "req_host_in" *) [114;101;113;95;104;111;115;116;95;105;110]) then VHostList
+  else if bytes_eqb name ((* "bfe_time_range" *) [98;102;101;95;116;105;109;101;95;114;97;110;103;101]) then VTime
+  else if bytes_eqb name ((* "bfe_periodic_time_range" *) [98;102;101;95;112;101;114;105;111;100;105;99;95;116;105;109;101;95;114;97;110;103;101]) then VPeriodic
+  else if ends_with ((* "ip_range" *) [105;112;95;114;97;110;103;101]) name then VIpRange
+  else if ends_with ((* "_regmatch" *) [95;114;101;103;109;97;116;99;104]) name then VRegex
+  else if ends_with ((* "_hash_in" *) [95;104;97;115;104;95;105;110]) name then VHash
   else VNone.
 (* the pattern argument of *_regmatch / *_hash_in is the last STRING argument *)
 Definition last_string (args : list arg) : bytes :=
